@@ -21,9 +21,11 @@ def r1_exhaustive(chk: Check) -> None:
     if len(predicates) < 4:
         raise Undecided("Token.is_* predicates not found")
     fn = P.func(f"{EXPR}/parser.py:_parse")
-    loop = next((n for n in walk_body(fn.node) if isinstance(n, ast.For) and dotted(n.iter) == "tokens"), None)
+    tok_vars = set(defined_by(fn, "$v = lexer.tokenize($_)")) | set(defined_by(fn, "$v = tokenize($_)"))
+    loop = next((n for n in walk_body(fn.node) if isinstance(n, ast.For) and isinstance(n.target, ast.Name) and (dotted(n.iter) in tok_vars or (isinstance(n.iter, ast.Call) and last_attr(n.iter) == "tokenize"))), None)
     if loop is None:
         raise Undecided("token loop not found in _parse")
+    tv = loop.target.id  # type: ignore[attr-defined]
     top = next((s for s in loop.body if isinstance(s, ast.If)), None)
     if top is None:
         raise Undecided("if/elif chain not found in _parse")
@@ -32,7 +34,7 @@ def r1_exhaustive(chk: Check) -> None:
     has_else_raise = False
     while cur is not None:
         for n in ast.walk(cur.test):
-            if isinstance(n, ast.Attribute) and dotted(n.value) == "token" and n.attr.startswith("is_"):
+            if isinstance(n, ast.Attribute) and dotted(n.value) == tv and n.attr.startswith("is_"):
                 covered[n.attr] = cur
         if cur.orelse and not (len(cur.orelse) == 1 and isinstance(cur.orelse[0], ast.If)):
             has_else_raise = any(isinstance(s, ast.Raise) for s in cur.orelse)
@@ -107,26 +109,35 @@ def r2_resolvability(chk: Check) -> None:
             chk.violation("C10.R2", inner, "parameter used only if not UNRESOLVABLE", "the comprehension no longer compares with UNRESOLVABLE: the sentinel of an unresolvable expression is sent as the parameter value", inner.loc(comp))
         else:
             chk.expect("UNRESOLVABLE" in conds and "not in" in conds, "C10.R2", inner, "parameter used only if not UNRESOLVABLE", "an unresolvable extraction result is sent as the parameter value", inner.loc(comp))
+    trv = defined_by(inner, "$v = link.extract($_)") or defined_by(inner, "$v = $_.extract($_)")
+    if not trv:
+        raise Undecided("`transition = link.extract(output)` not found in into_step_input")
+    T = trv[0]
     for n in walk_body(inner.node):
-        if isinstance(n, ast.If) and "transition.request_body" in unparse(n.test, 600):
-            t = unparse(n.test, 600)
+        if isinstance(n, ast.If) and f"{T}.request_body" in unparse(n.test, 600):
+            t = unparse(n.test, 600).replace(f"{T}.", "transition.")
             which = "merge" if "link.merge_body" in t and "not link.merge_body" not in t else "replace"
             if "UNRESOLVABLE" not in names_in(n.test) or "Ok" not in names_in(n.test):
                 chk.violation("C10.R2", inner, f"request body ({which}) used only if Ok and not UNRESOLVABLE", f"guard `{t[:120]}` no longer tests Ok / UNRESOLVABLE: an unresolved or failed body is sent", inner.loc(n))
                 continue
             chk.expect("isinstance(transition.request_body.value, Ok)" in t and "is not UNRESOLVABLE" in t and "is not None" in t, "C10.R2", inner,
                        f"request body ({which}) used only if Ok and not UNRESOLVABLE", f"guard `{t[:120]}` lets an unresolved / failed body through", inner.loc(n))
-    merges = [n for n in walk_body(inner.node) if isinstance(n, ast.Assign) and unparse(n.targets[0]) == "case.body" and isinstance(n.value, ast.Dict)]
+    merges = [(n, b) for n, b in pfind("$c.body = {**$A, **$B}", inner.node)]
     if merges:
-        d = merges[0].value
-        order = [unparse(v) for k, v in zip(d.keys, d.values) if k is None]  # type: ignore[union-attr]
-        chk.decide(order == ["case.body", "new"], "C10.R2", inner, "merge_body: {**case.body, **new} (link value wins)", f"merge order {order}: a generated value overrides the link-supplied one", inner.loc(merges[0]))
+        n0, b0 = merges[0]
+        cname = name_of(b0, "c")
+        first_is_generated = unparse(b0["A"]) == f"{cname}.body"
+        second_from_link = any(f"{T}.request_body.value.ok()" in x for x in canon(inner, b0["B"]))
+        first_from_link = any(f"{T}.request_body.value.ok()" in x for x in canon(inner, b0["A"]))
+        verdict = True if (first_is_generated and second_from_link) else (False if (first_from_link and unparse(b0["B"]) == f"{cname}.body") else None)
+        chk.decide(verdict, "C10.R2", inner, "merge_body: {**case.body, **new} (link value wins)", f"merge order [{unparse(b0['A'])}, {unparse(b0['B'])}]: a generated value overrides the link-supplied one", inner.loc(n0))
     else:
         chk.undecided("C10.R2", inner, "merge_body: {**case.body, **new} (link value wins)", "merge not found", inner.loc())
     st = [c for c in body_calls(inner, into_nested=True) if last_attr(c) == "as_strategy"]
-    chk.decide(bool(st) and any(k.arg is None and unparse(k.value) == "kwargs" for k in st[0].keywords), "C10.R2", inner, "link values passed as explicit containers (**kwargs)", "extracted values are not passed to the target's strategy", inner.loc())
+    kw_vars = {name_of(b, "v") for n_, b in pfind("$v = $X", inner.node) if isinstance(b["X"], ast.Dict) or (isinstance(b["X"], ast.DictComp) and f"{T}.parameters.items()" in unparse(b["X"], 2000))}
+    chk.decide(bool(st) and any(k.arg is None and isinstance(k.value, ast.Name) and k.value.id in kw_vars and comp is not None and any(comp is x for x in ast.walk(next((v for _s, v in assignments_to(inner.node, k.value.id) if v is not None), ast.Pass()))) for k in st[0].keywords), "C10.R2", inner, "link values passed as explicit containers (**kwargs)", "extracted values are not passed to the target's strategy", inner.loc())
     rets = simple_return_expr(inner)
-    chk.decide(any(isinstance(r, ast.Call) and last_attr(r) == "StepInput" and unparse(kwarg(r, "transition")) == "transition" for r in rets), "C10.R2", inner, "StepInput carries the transition", "the derived step loses its transition (history)", inner.loc())
+    chk.decide(any(isinstance(r, ast.Call) and last_attr(r) == "StepInput" and unparse(kwarg(r, "transition")) == T for r in rets), "C10.R2", inner, "StepInput carries the transition", "the derived step loses its transition (history)", inner.loc())
 
 
 def r3_errors(chk: Check) -> None:
@@ -146,29 +157,45 @@ def r3_errors(chk: Check) -> None:
             chk.decide(any(isinstance(s, ast.Assign) and isinstance(s.value, ast.Call) and last_attr(s.value) == "Err" and h.name in names_in(s.value) for s in h.body), "C10.R3", fn,
                        "except Exception -> Err(exc)", "the evaluation error is swallowed (value is not Err(exc))", fn.loc(h))
         a0 = unparse(ev[0].args[0]) if ev[0].args else ""
-        want = "parameter.expression" if name == "extract_parameters" else "self.body"
-        chk.decide(a0 == want, "C10.R3", fn, f"evaluates {want}", f"evaluates `{a0}` instead", fn.loc(ev[0]))
+        if name == "extract_parameters":
+            lp = next((a for a in ancestors(ev[0]) if isinstance(a, ast.For) and dotted(a.iter) == "self.parameters" and isinstance(a.target, ast.Name)), None)
+            if lp is None:
+                chk.undecided("C10.R3", fn, "evaluates parameter.expression", "loop over self.parameters not found", fn.loc(ev[0]))
+                continue
+            want = f"{lp.target.id}.expression"  # type: ignore[attr-defined]
+        else:
+            want = "self.body"
+        chk.decide(a0 == want, "C10.R3", fn, f"evaluates {'parameter.expression' if name == 'extract_parameters' else want}", f"evaluates `{a0}` instead", fn.loc(ev[0]))
         if name == "extract_body":
             chk.decide(unparse(kwarg(ev[0], "evaluate_nested")) == "True", "C10.R3", fn, "body expressions are evaluated recursively (evaluate_nested=True)", "nested expressions in requestBody are sent as literal text", fn.loc(ev[0]))
     ep = P.func(f"{LINKS}:OpenApiLink.extract_parameters")
-    stores = [n for n in walk_body(ep.node) if isinstance(n, ast.Assign) and isinstance(n.targets[0], ast.Subscript) and unparse(n.targets[0].slice) == "parameter.name"]
-    chk.decide(bool(stores) and "value=value" in unparse(stores[0].value), "C10.R3", ep, "container[parameter.name] = ExtractedParam(value=value)", "extracted value is stored under a different name", ep.loc())
-    cont = [v for _, v in assignments_to(ep.node, "container") if v is not None]
-    chk.decide(bool(cont) and "parameter.container_name" in unparse(cont[0]), "C10.R3", ep, "stored in the parameter's own container", "value is put into a different container (location)", ep.loc())
+    lp = next((a for a in walk_body(ep.node) if isinstance(a, ast.For) and dotted(a.iter) == "self.parameters" and isinstance(a.target, ast.Name)), None)
+    if lp is None:
+        chk.undecided("C10.R3", ep, "container[parameter.name] = ExtractedParam(value=value)", "loop over self.parameters not found", ep.loc())
+    else:
+        pn = lp.target.id  # type: ignore[attr-defined]
+        stores = [(n, b) for n, b in pfind("$c[$K] = ExtractedParam(..., value=$val)", lp) if unparse(b["K"]) == f"{pn}.name"]
+        # the stored value is the Ok/Err produced by this iteration's evaluation
+        val_ok = bool(stores) and isinstance(stores[0][1]["val"], ast.Name) and any(isinstance(v, ast.Call) and last_attr(v) in ("Ok", "Err") for _s, v in assignments_to(ep.node, stores[0][1]["val"].id) if v is not None)  # type: ignore[attr-defined]
+        chk.decide(bool(stores) and val_ok, "C10.R3", ep, "container[parameter.name] = ExtractedParam(value=value)", "extracted value is stored under a different name", ep.loc())
+        cvar = name_of(stores[0][1], "c") if stores else None
+        cont = [v for _, v in assignments_to(ep.node, cvar) if v is not None] if cvar else []
+        chk.decide(bool(cont) and f"{pn}.container_name" in unparse(cont[0]), "C10.R3", ep, "stored in the parameter's own container", "value is put into a different container (location)", ep.loc())
     init = P.func(f"{LINKS}:OpenApiLink.__init__")
     g = cfg_of(init)
     raises = [n for n in walk_body(init.node) if isinstance(n, ast.Raise) and "InvalidTransition" in unparse(n.exc, 100)]
     guard = parent(raises[0]) if raises else None
-    chk.decide(bool(raises) and isinstance(guard, ast.If) and unparse(guard.test) == "errors", "C10.R3", init, "if errors: raise InvalidTransition", "collected link errors do not turn into a schema error", init.loc())
+    err_lists = {c.func.value.id for c in body_calls(init) if last_attr(c) in ("append", "extend") and isinstance(c.func, ast.Attribute) and isinstance(c.func.value, ast.Name)} | {name_of(b, "v") for n_, b in pfind("$v = []", init.node)}
+    chk.decide(bool(raises) and isinstance(guard, ast.If) and isinstance(guard.test, ast.Name) and guard.test.id in err_lists, "C10.R3", init, "if errors: raise InvalidTransition", "collected link errors do not turn into a schema error", init.loc())
     np_ = P.func(f"{LINKS}:OpenApiLink._normalize_parameters")
     pc = [c for c in body_calls(np_) if "parser.parse" in (dotted(c.func) or "")]
     if pc:
         t = shared.covering_try(stmt_of(pc[0]), np_.node)  # type: ignore[arg-type]
-        ok = t is not None and any(last_attr(c) == "append" and "errors" in unparse(c.func) for h in t.handlers for c in calls(h))
+        ok = t is not None and any(last_attr(c) == "append" and c.args and "TransitionValidationError" in unparse(c.args[0], 200) for h in t.handlers for c in calls(h))
         chk.decide(ok, "C10.R3", np_, "parse error -> errors.append(TransitionValidationError)", "a malformed expression is not reported as a link error", np_.loc(pc[0]))
         # parsing is unconditional for string expressions
         guard = next((a for a in ancestors(pc[0]) if isinstance(a, ast.If)), None)
-        chk.decide(isinstance(guard, ast.If) and unparse(guard.test) == "isinstance(expression, str)", "C10.R3", np_, "every string expression is parsed at link construction", f"parsing is conditional on `{unparse(guard.test) if guard else None}`", np_.loc(pc[0]))
+        chk.decide(isinstance(guard, ast.If) and (m_ := pmatch("isinstance($e, str)", guard.test)) is not None and pc[0].args and same_var(m_["e"], pc[0].args[0]), "C10.R3", np_, "every string expression is parsed at link construction", f"parsing is conditional on `{unparse(guard.test) if guard else None}`", np_.loc(pc[0]))
     else:
         chk.violation("C10.R3", np_, "expressions are parsed at link construction", "malformed expressions are only discovered (and swallowed as Err) while testing", np_.loc())
     gal = P.func(f"{LINKS}:get_all_links")
@@ -176,31 +203,34 @@ def r3_errors(chk: Check) -> None:
     ok = any("InvalidTransition" in handler_classes(h) and any(isinstance(y, ast.Yield) and "Err(" in unparse(y.value, 100) for s in h.body for y in walk_local(s)) for h in hs)
     chk.decide(ok, "C10.R3", gal, "InvalidTransition -> yield Err(exc)", "an invalid link is skipped silently", gal.loc())
     ct = P.func(f"{STATEFUL}:collect_transitions")
-    t = unparse(ct.node, 100000)
-    chk.expect("errors.append(link.err())" in t and "raise InvalidStateMachine(errors)" in t, "C10.R3", ct, "link errors -> InvalidStateMachine", "invalid links are dropped instead of failing the stateful phase", ct.loc())
+    apps = pfind("$e.append($l.err())", ct.node)
+    chk.expect(bool(apps) and phas("raise InvalidStateMachine($e)", ct.node, env={"e": apps[0][1]["e"]}), "C10.R3", ct, "link errors -> InvalidStateMachine", "invalid links are dropped instead of failing the stateful phase", ct.loc())
 
 
 def r4_status_matching(chk: Check) -> None:
     chk.rule("C10.R4", "SIBLINGS-AGREE(status matching): link filters expand status codes with the same expand_status_code as the conformance check; `default` excludes exactly the other documented codes", floor=5)
     P = chk.project
     msc = P.func(f"{STATEFUL}:match_status_code")
-    sc = [v for _, v in assignments_to(msc.node, "status_codes") if v is not None]
-    chk.decide(bool(sc) and "expand_status_code(status_code)" in unparse(sc[0]), "C10.R4", msc, "status_codes = set(expand_status_code(status_code))", "link status keys are compared without wildcard expansion", msc.loc())
+    sc = [(n, b) for n, b in pfind("$v = $X", msc.node) if "expand_status_code(status_code)" in unparse(b["X"])]
+    chk.decide(bool(sc), "C10.R4", msc, "status_codes = set(expand_status_code(status_code))", "link status keys are compared without wildcard expansion", msc.loc())
+    scv = name_of(sc[0][1], "v") if sc else None
     cmpf = msc.module.functions.get("match_status_code.compare")
     r = simple_return_expr(cmpf) if cmpf else []
     if r and isinstance(r[0], ast.Compare):
-        good = isinstance(r[0].ops[0], ast.In) and unparse(r[0].left) == "result.response.status_code" and unparse(r[0].comparators[0]) == "status_codes"
+        good = isinstance(r[0].ops[0], ast.In) and unparse(r[0].left) == "result.response.status_code" and unparse(r[0].comparators[0]) == scv
         chk.decide(good, "C10.R4", cmpf, "status in expanded codes", f"filter is `{unparse(r[0])}`", cmpf.loc())  # type: ignore[arg-type]
     else:
         chk.undecided("C10.R4", msc, "status in expanded codes", "compare closure not recognised", msc.loc())
     dsc = P.func(f"{STATEFUL}:default_status_code")
-    ex = [v for _, v in assignments_to(dsc.node, "expanded_status_codes") if v is not None]
+    exs = [(n, b) for n, b in pfind("$v = $X", dsc.node) if "expand_status_code(" in unparse(b["X"], 400)]
+    ex = [b["X"] for _n, b in exs]
+    exv = name_of(exs[0][1], "v") if exs else None
     t = unparse(ex[0], 400) if ex else ""
-    chk.expect("value != 'default'" in t and "expand_status_code(value)" in t, "C10.R4", dsc, "default: expand every other documented code", f"`{t[:100]}`", dsc.loc())
+    chk.expect(bool(ex) and phas("$x != 'default'", ex[0]) and phas("expand_status_code($x)", ex[0]), "C10.R4", dsc, "default: expand every other documented code", f"`{t[:100]}`", dsc.loc())
     inner = dsc.module.functions.get("default_status_code.match_default_response")
     r = simple_return_expr(inner) if inner else []
     if r and isinstance(r[0], ast.Compare):
-        chk.decide(isinstance(r[0].ops[0], ast.NotIn) and unparse(r[0].comparators[0]) == "expanded_status_codes", "C10.R4", inner, "default matches only codes not documented otherwise", f"`{unparse(r[0])}`", inner.loc())  # type: ignore[arg-type]
+        chk.decide(isinstance(r[0].ops[0], ast.NotIn) and unparse(r[0].comparators[0]) == exv, "C10.R4", inner, "default matches only codes not documented otherwise", f"`{unparse(r[0])}`", inner.loc())  # type: ignore[arg-type]
     mrf = P.func(f"{STATEFUL}:make_response_filter")
     t = unparse(mrf.node, 2000)
     chk.expect("if status_code == 'default'" in t and "return default_status_code(all_status_codes)" in t and "return match_status_code(status_code)" in t, "C10.R4", mrf, "dispatch default / explicit", "dispatch not recognised", mrf.loc())
@@ -245,7 +275,11 @@ def r4_status_matching(chk: Check) -> None:
             chk.undecided("C10.R4", csm, construct, "origin of the documented codes not recognised", csm.loc(c))
         a0 = unparse(c.args[0])
         chk.expect(a0.endswith("status_code"), "C10.R4", csm, "filter keyed by the link's own response key", f"first argument is `{a0}`", csm.loc(c))
-    chk.expect("bundles[bundle_name].flatmap(into_step_input(target=target, link=link" in t.replace("\n", ""), "C10.R4", csm, "a link is followed only from its own bundle", "links draw sources from another bundle", csm.loc())
+    own = False
+    for n_, b in pfind("$B[$n].flatmap(into_step_input(target=$t, link=$l, *...))", csm.node):
+        # $n is the bundle name built from this very link's source and status code
+        own = own or any(f"{name_of(b, 'l')}.source.label" in x and f"{name_of(b, 'l')}.status_code" in x for x in canon(csm, b["n"]))
+    chk.expect(own, "C10.R4", csm, "a link is followed only from its own bundle", "links draw sources from another bundle", csm.loc())
 
 
 def r5_evaluate(chk: Check) -> None:
@@ -253,8 +287,11 @@ def r5_evaluate(chk: Check) -> None:
     P = chk.project
     ev = P.func(f"{EXPR}/__init__.py:evaluate")
     t = unparse(ev.node, 100000)
-    chk.expect("parts = [node.evaluate(output) for node in parser.parse(expr)]" in t, "C10.R5", ev, "every parsed node is evaluated in order", "nodes are evaluated selectively / reordered", ev.loc())
-    chk.expect("if len(parts) == 1:" in t and "return parts[0]" in t, "C10.R5", ev, "single node keeps its type", "single values are stringified", ev.loc())
+    pp = pfirst("$p = [$n.evaluate(output) for $n in parser.parse(expr)]", ev.node)
+    chk.expect(pp is not None, "C10.R5", ev, "every parsed node is evaluated in order", "nodes are evaluated selectively / reordered", ev.loc())
+    pv_ = name_of(pp[1], "p") if pp else "parts"
+    single = [n for n, _b in ptests(f"len({pv_}) == 1", ev.node) if isinstance(n, ast.If) and phas(f"return {pv_}[0]", n.body)]
+    chk.expect(bool(single), "C10.R5", ev, "single node keeps its type", "single values are stringified", ev.loc())
     g = cfg_of(ev)
     unres = [n for n in walk_body(ev.node) if isinstance(n, ast.If) and "Unresolvable" in unparse(n.test)]
     joins = [n for n in walk_body(ev.node) if isinstance(n, ast.Return) and n.value is not None and "join" in unparse(n.value)]
